@@ -93,6 +93,7 @@ PROPS = {
             dict(name="TestSQLiteMemory", quick=150, thorough=1500, shards_thorough=2, shrinktime="20s"),
             dict(name="TestDurable", quick=1500, thorough=20000, shards_thorough=6, shrinktime="20s"),
             dict(name="TestKnownProbes", quick=1, thorough=1, shards_thorough=1, rapid=False),
+            dict(name="FuzzRoundTrip", quick=0, thorough=120, shards_thorough=1, fuzz=True, rapid=False, fuzz_workers=8),
         ],
     ),
     "C11": dict(
